@@ -70,6 +70,23 @@ PROPS = {
                 "and ontologies missing one or both roots; built with build_with_defaults; non-trivial = both roots and >= 5 terms",
         "trust": [], "assumptions": [],
     },
+    "C07": {
+        "subs": [sub("C07", "run_C07", "spec_C07", W_IMPORTS + ["Run.C07"], 300, 3000)],
+        "run_modules": ["C07"],
+        "rule": "ontologies from the Builder and from binary v1/v2/v3 files (obsolete / replaced terms, replacements that resolve or dangle, "
+                "records without terms, empty sections, ids up to 9 999 999, names of 250-262 bytes with multi-byte characters straddling "
+                "byte 255); as_bytes compared byte for byte (records sorted), reload dumped, compare() consulted; non-trivial = both roots and >= 4 terms",
+        "trust": ["String::from_utf8 / is_char_boundary modelled by utf8_valid / is_char_boundary (Model/Binary.v)"],
+        "assumptions": ["ontology contains HP:0000001 and HP:0000118 (the property's precondition)", "replacement id 0 is reserved by the format"],
+    },
+    "C08": {
+        "subs": [sub("C08", "run_C08", "spec_C08", ["Run.World", "Run.C08"], 60, 400)],
+        "run_modules": ["C08"],
+        "rule": "files laid out by the harness's own v1/v2/v3 encoder (random record order, shuffled id lists) from 2-6-term fact sets (thorough 2-9); "
+                "for each file: the file itself, EVERY proper prefix, 4 suffixes, 6-12 version bytes; non-trivial = file with both roots",
+        "trust": ["harness/src/bin.rs encoder as the definition of 'laid out according to the documented format'"],
+        "assumptions": ["v1 terms section shorter than 0x48504F00 bytes (else it is indistinguishable from the magic)"],
+    },
     "C12": {
         "subs": [sub("C12", "run_C12", "spec_C12", ["Run.C12"], 3000, 30000)],
         "run_modules": ["C12"],
